@@ -15,7 +15,7 @@ impl Prop for C10 {
         any_case(tier, (5, 3, 2), &TreeKind::ALL)
     }
     fn cases(&self, tier: Tier, _build: &str) -> u32 {
-        if tier == Tier::Quick { 12_000 } else { 250_000 }
+        if tier == Tier::Quick { 24_000 } else { 250_000 }
     }
     fn transcript_pairs(&self) -> Vec<(&'static str, &'static str)> {
         vec![("fast", "checked")]
@@ -47,8 +47,8 @@ impl Prop for C11 {
     }
     fn cases(&self, tier: Tier, build: &str) -> u32 {
         match (tier, build) {
-            (Tier::Quick, "fast") => 10_000,
-            (Tier::Quick, _) => 4_000,
+            (Tier::Quick, "fast") => 20_000,
+            (Tier::Quick, _) => 8_000,
             (Tier::Thorough, "fast") => 200_000,
             (Tier::Thorough, _) => 60_000,
         }
